@@ -511,7 +511,8 @@ def merge_triple(gen, cls=None, minor=None, plain_eol=False):
         if r.random() < 0.3:
             base["cells"][k]["source"] = ""
     elif cls == "exec_count":
-        for nb, ec in ((base, 1), (loc, 2), (rem, 3)):
+        base_ec = r.choice([1, None, None])      # never-executed in base: the 'clear' action then clears a null value
+        for nb, ec in ((base, base_ec), (loc, 2), (rem, 3)):
             for c in nb["cells"]:
                 if c["cell_type"] == "code":
                     c["execution_count"] = ec
